@@ -155,7 +155,7 @@ def correspond(ctx):
     ngr = ctx.scale(90, 700) * (2 if ctx.widen else 1)
     sampled = 0
     for gi in range(ngr):
-        rules, ts = C.gen_context_cfg(rng) if gi % 2 == 1 else C.gen_cfg(rng)
+        rules, ts = (C.gen_nullable_prefix_cfg(rng) if gi % 4 == 3 else C.gen_context_cfg(rng)) if gi % 2 == 1 else C.gen_cfg(rng)
         prod = C.productive(rules, ts)
         if any(a not in prod or any(s not in prod for s in rhs) for a, rhs in rules):
             continue            # outside the theorem's hypothesis (F10); see the exotic stream
@@ -214,6 +214,7 @@ def correspond(ctx):
                       'model and lark disagree on the expected set after %d tokens of %r (the viable-prefix oracle agrees with lark)' % (m['consumed'], m['text']))
     ignore_stream(ctx)
     custom_lexer_stream(ctx)
+    on_error_stream(ctx)
     # CYK: ParseError, never something else
     try:
         from lark import Lark
@@ -454,8 +455,100 @@ def custom_lexer_stream(ctx):
                 pass
 
 
+def on_error_stream(ctx):
+    """LALR parse(text, on_error=h): the retry loop around the interactive parser must not turn a rejection into a hang
+    or into another exception type. With a handler that declines (returns False) the error is the one plain parse()
+    raises; with a handler that always says 'go on' the call still terminates (the handler is called at most once per
+    remaining character plus once for $END) and ends with a tree or an UnexpectedInput."""
+    from lark import Lark
+    from lark.exceptions import GrammarError, UnexpectedInput, UnexpectedCharacters
+
+    class TooManyCalls(Exception):
+        pass
+
+    def pos_of(e):
+        return e.pos_in_stream if isinstance(e, UnexpectedCharacters) else (e.token.type, getattr(e.token, 'start_pos', None))
+    rng = ctx.rng
+    for gi in range(ctx.scale(24, 160)):
+        rules, ts = C.gen_context_cfg(rng) if gi % 3 == 1 else C.gen_cfg(rng, nullable=0.15)
+        prod = C.productive(rules, ts)
+        if any(a not in prod or any(x not in prod for x in rhs) for a, rhs in rules):
+            continue
+        reach = C.reachable(rules)
+        rules = [r for r in rules if r[0] in reach]
+        ts_used = [t for t in ts if any(t in rhs for _, rhs in rules)]
+        if not ts_used or not lalr_conflict_free(rules, ts_used):
+            continue
+        g = C.to_lark(rules, ts_used)
+        words = [w for n in range(0, 5) for w in itertools.product(ts_used + ['z'], repeat=n)]
+        rng.shuffle(words)
+        for lexer in ('basic', 'contextual'):
+            try:
+                p = build(g, 'lalr', lexer)
+            except (GrammarError, Timeout):
+                continue
+            for w in words[:ctx.scale(14, 40)]:
+                toks = list(w)
+                if 'z' not in toks and C.accepts(rules, toks):
+                    continue
+                text = ''.join(t.lower() if t != 'z' else 'z' for t in toks)
+                try:
+                    p.parse(text)
+                    continue
+                except UnexpectedInput as e0:
+                    plain = (type(e0).__name__, pos_of(e0))
+                except Exception:  # noqa  (judged by the main stream)
+                    continue
+                bad = None
+                # (1) declining handler: same error as plain parse
+                calls = []
+                try:
+                    with_timeout(lambda: p.parse(text, on_error=lambda e: calls.append(e) or False))
+                    bad = 'declining on_error handler: parse returned although plain parse() raises'
+                except UnexpectedInput as e1:
+                    if (type(e1).__name__, pos_of(e1)) != plain or len(calls) != 1:
+                        bad = 'declining on_error handler: %s after %d handler calls, plain parse raises %s' % (
+                            (type(e1).__name__, pos_of(e1)), len(calls), plain)
+                except Timeout:
+                    bad = 'hang with a declining on_error handler'
+                except Exception as ex:  # noqa
+                    bad = 'declining on_error handler: raised %s' % type(ex).__name__
+                # (2) handler that always continues: must terminate
+                if bad is None:
+                    n = [0]
+
+                    def h(e):
+                        n[0] += 1
+                        if n[0] > len(text) + 3:
+                            raise TooManyCalls()
+                        return True
+                    try:
+                        with_timeout(lambda: p.parse(text, on_error=h))
+                    except UnexpectedInput:
+                        pass
+                    except TooManyCalls:
+                        bad = 'on_error=lambda e: True never terminates: handler called more than %d times on a %d-character input' % (
+                            len(text) + 3, len(text))
+                    except Timeout:
+                        bad = 'hang with on_error=lambda e: True'
+                    except Exception as ex:  # noqa
+                        bad = 'on_error=lambda e: True: raised %s instead of an UnexpectedInput subclass' % type(ex).__name__
+                vl = C.viable_len(rules, ts_used, toks)
+                ctx.count('on-error', key=(g, lexer, text), nontrivial=vl >= 1, lexer=lexer, eof_case=(vl == len(toks)))
+                if bad:
+                    ctx.violation('on-error', {'grammar': g, 'lexer': lexer, 'text': text, 'kind': 'on-error',
+                                               'rules': [[a, list(r)] for a, r in rules], 'terminals': ts_used}, True, bad)
+
+
 def replay(ctx, case):
     w = case['witness']
+    if w.get('kind') == 'on-error':
+        c2 = type(ctx)(ctx.prop, ctx.tier, ctx.seed)
+        try:
+            on_error_stream(c2)
+            return any(v['stage'] == 'on-error' for v in c2.violations)
+        finally:
+            c2.cleanup()
     if w.get('kind') == 'ignore':
         c2 = type(ctx)(ctx.prop, ctx.tier, ctx.seed)
         try:
